@@ -1,7 +1,9 @@
 package props
 
 import (
+	crand "crypto/rand"
 	"fmt"
+	"io"
 	"math/rand/v2"
 	"runtime"
 	"strings"
@@ -70,6 +72,77 @@ func prevPrime(x *big.Int) *big.Int {
 	return p
 }
 
+// faultReader passes the system randomness through, except that the target-th read (counted from 1) is answered with a
+// constant byte pattern: the extreme draws (all ones / all zeros) that a signing run meets with negligible probability.
+type faultReader struct {
+	inner   io.Reader
+	n       int
+	target  int
+	pattern byte
+	hit     bool
+}
+
+func (f *faultReader) Read(p []byte) (int, error) {
+	f.n++
+	if f.n == f.target {
+		for i := range p {
+			p[i] = f.pattern
+		}
+		f.hit = true
+		return len(p), nil
+	}
+	return f.inner.Read(p)
+}
+
+// c05ExtremeRandomness signs with single extreme random draws (single-threaded: crypto/rand.Reader is process-wide). Whatever
+// the generator returns, a signature that comes out of SignMessageBlock must be valid: in particular the prime exponent
+// drawn at the very top or bottom of its interval.
+func c05ExtremeRandomness(r *mon.Run, keys []string) {
+	orig := crand.Reader
+	defer func() { crand.Reader = orig }()
+	for _, kn := range keys {
+		k := world.Fixture(kn)
+		pk := k.PK
+		ms := []*big.Int{bi(12345), bi(678)}
+		if len(pk.R) < 2 {
+			ms = ms[:1]
+		}
+		for target := 1; target <= 6; target++ {
+			for _, pat := range []byte{0xFF, 0x00} {
+				fr := &faultReader{inner: orig, target: target, pattern: pat}
+				crand.Reader = fr
+				var sig *gabi.CLSignature
+				var err error
+				pv, stack := mon.Try(func() { sig, err = gabi.SignMessageBlock(k.SK, pk, ms) })
+				crand.Reader = orig
+				if !fr.hit {
+					continue
+				}
+				desc := fmt.Sprintf("key=%s random read #%d answered with 0x%02X", kn, target, pat)
+				r.Distinct("extreme-randomness", desc)
+				if pv != nil {
+					r.Eval("extreme-randomness", "panic")
+					r.PanicSeen(mon.PanicSite(stack))
+					continue
+				}
+				if err != nil || sig == nil {
+					r.Eval("extreme-randomness", "error") // no signature produced: nothing to hold
+					continue
+				}
+				ref := refimpl.CLValid(pk, sig, ms)
+				var lib bool
+				mon.Try(func() { lib = sig.Verify(pk, ms) })
+				r.Eval("extreme-randomness", outcome(lib && ref, nil))
+				if !ref || !lib {
+					r.Violation("C05/issued-signature-invalid/extreme-randomness", fmt.Sprintf("SignMessageBlock returned a signature that is not valid (reference=%v library=%v; e in interval=%v) (%s)", ref, lib, refimpl.EInRange(pk, sig.E), desc),
+						map[string]any{"case": desc, "sig": map[string]string{"A": dumpInt(sig.A), "e": dumpInt(sig.E), "v": dumpInt(sig.V)}})
+				}
+			}
+		}
+	}
+	r.FloorFam("extreme-randomness", 6)
+}
+
 func runC05(r *mon.Run) {
 	keys := []string{"toy512a", "toy256a", "fix1024a"}
 	if r.Thorough() {
@@ -94,6 +167,7 @@ func runC05(r *mon.Run) {
 			}
 		}
 	}
+	c05ExtremeRandomness(r, keys)
 	mon.Parallel(len(jobs), runtime.NumCPU(), func(ji int) {
 		j := jobs[ji]
 		c05Job(r, world.Fixture(j.key), j.n, rand.New(rand.NewPCG(j.seed, 5)))
